@@ -126,6 +126,7 @@ type GlobalInv struct {
 
 type ContractSet struct {
 	guards    [][3]string // struct type (pkg.Name), field, lock field
+	sharedCfg []string    // struct types (pkg.Name) whose objects concurrent requests read without a lock
 	globalInvs []*GlobalInv
 	typeInvs  [][2]string
 	axioms    []*Axiom
@@ -411,6 +412,10 @@ func (cs *ContractSet) parseFile(path, pkgDir string, extern bool) {
 			if len(f) == 2 && strings.Contains(f[0], ".") {
 				i := strings.Index(f[0], ".")
 				cs.guards = append(cs.guards, [3]string{pkgShort(pkgDir) + "." + f[0][:i], f[0][i+1:], f[1]})
+			}
+		case word == "sharedconfig":
+			for _, t := range strings.Fields(rest) {
+				cs.sharedCfg = append(cs.sharedCfg, pkgShort(pkgDir)+"."+t)
 			}
 		case word == "typeinv":
 			f := strings.Fields(rest)
@@ -1368,6 +1373,9 @@ func (cs *ContractSet) resolve(e *Engine) {
 	}
 	for _, ti := range cs.typeInvs {
 		e.typeInv[ti[0]] = ti[1]
+	}
+	for _, t := range cs.sharedCfg {
+		e.sharedCfg[t] = true
 	}
 	for _, g := range cs.guards {
 		e.guards[g[0]+"."+g[1]] = g[2]
